@@ -218,7 +218,10 @@ pub fn candidates(u: &Universe) -> Vec<Injection> {
                     }
                 }
                 // opcode index (world messages without test blocks, so that nothing else refers to the name)
-                if c.kind.is_world() && !has_tests && o.pasted.is_none() || c.kind.is_world() && !has_tests {
+                // ... and only definitions that cover 1.12, 2.4.3 or 3.3.5: the index exists for those three versions, a
+                // definition for 1.1 - 1.11 alone is (rightly) not looked up in any
+                let indexed_version = [Expansion::Vanilla, Expansion::Tbc, Expansion::Wrath].iter().any(|e| o.in_ns(Ns::World(*e)));
+                if c.kind.is_world() && !has_tests && indexed_version {
                     if let (Some(os), Some(opv)) = (c.opcode_span, c.opcode_text.as_deref().and_then(parse_int)) {
                         out.push(Injection { rule: "opcode-differs-from-index", expect: 7, file: o.file, edits: vec![(os.start, os.end, format!("{:#06X}", (opv + 0x3000) & 0xFFFF).replace("0X", "0x"))], object: c.name.clone(), site_class: fclass, what: format!("opcode of {} changed", c.name) });
                         out.push(Injection { rule: "name-differs-from-index", expect: 19, file: o.file, edits: vec![(c.name_span.start, c.name_span.end, format!("{}_VERIF", c.name))], object: c.name.clone(), site_class: fclass, what: format!("{} renamed, opcode kept", c.name) });
@@ -257,7 +260,8 @@ pub fn candidates(u: &Universe) -> Vec<Injection> {
                         out.push(Injection { rule: "enumerator-value-unparsable", expect: 10, file: o.file, edits: vec![(vs, ve, " VERIF_NOT_A_NUMBER".into())], object: d.name.clone(), site_class: fclass, what: format!("{}::{} = VERIF_NOT_A_NUMBER", d.name, m1.name) });
                     }
                 }
-                if d.kind == DefinerKind::Flag && !d.base.starts_with('i') {
+                // (u48 has no signed counterpart in the language: `i48` is not a type at all, that is another rule)
+                if d.kind == DefinerKind::Flag && !d.base.starts_with('i') && d.base != "u48" {
                     let signed = format!("i{}", &d.base[1..]);
                     out.push(Injection { rule: "flag-with-signed-type", expect: 21, file: o.file, edits: vec![(d.base_span.start, d.base_span.end, signed.clone())], object: d.name.clone(), site_class: fclass, what: format!("flag {} : {}", d.name, signed) });
                 }
